@@ -83,23 +83,12 @@ impl Metablock {
 //@end
 }
 
-// C15: the summary carries the first step's materials and the last step's products, byproducts and command
-pub open spec fn summary_of(layout: LayoutMetadata, red: Map<String, LinkMetadata>, name: Seq<char>, l: LinkMetadata) -> bool {
-    l.name@ == name
-    && (layout.steps@.len() > 0 ==> {
-        let first = red[layout.steps@[0].name];
-        let last = red[layout.steps@[layout.steps@.len() - 1].name];
-        l.materials == first.materials && l.products == last.products && l.byproducts == last.byproducts && l.command == last.command })
-}
 //@extract src/verifylib.rs fn:get_summary_link props=C15,C14
 //@subst D16 /reduced_link_files\[layout\.steps\[0\]\.name\(\)\]/ => reduced_link_files.get(layout.steps[0].name()).expect("no entry found for key")
 //@subst D16 /reduced_link_files\[layout\.steps\[layout\.steps\.len\(\) - 1\]\.name\(\)\]/ => reduced_link_files.get(layout.steps[layout.steps.len() - 1].name()).expect("no entry found for key") count=3
 //@contract ret=r
-    requires forall|i: int| 0 <= i < layout.steps@.len() ==> reduced_link_files@.contains_key(#[trigger] layout.steps@[i].name),   // [C14]
-    ensures
-        r is Ok ==> r->Ok_0.metadata is Link,    // [C15]
-        r is Ok && layout.steps@.len() > 0 ==> summary_of(*layout, reduced_link_files@, name@, r->Ok_0.metadata->Link_0),    // [C15]
-//@before /let builder = LinkMetadataBuilder::new\(\);/
+//@include contracts/get_summary_link.rs
+//@before /let builder = LinkMetadataBuilder::new\(\)/
     proof { fact_string_ext(); fact_artifact_map_ext(); }
 //@end
 } // verus!
